@@ -32,6 +32,9 @@ type Case struct {
 	// ReleaseMs > 0: the withheld flight is delivered once at that virtual time (a NEW flight after
 	// silence); everything the peer sends afterwards is dropped again.
 	ReleaseMs int `json:"release,omitempty"`
+	// ReleasePart > 0: only the first ReleasePart datagrams of the withheld flight are delivered at
+	// ReleaseMs (new data that does not complete the flight; needs a multi-datagram flight: MTU variants)
+	ReleasePart int `json:"part,omitempty"`
 	// StaleMs: instants at which the peer's last delivered flight is replayed to X.
 	StaleMs []int `json:"stale,omitempty"`
 	// JunkMs: instants at which garbage is delivered to X.
@@ -62,6 +65,13 @@ func epsFor(c *Case) (cl, sv scen.EP, resumed bool) {
 		cl.MinVer, cl.MaxVer, sv.MinVer, sv.MaxVer = 13, 13, 13, 13
 		cl.Curves, sv.Curves = []uint16{0x1d}, []uint16{0x1d}
 		sv.SkipHelloVfy = true
+	case "v13-mtu300":
+		cl.MinVer, cl.MaxVer, sv.MinVer, sv.MaxVer = 13, 13, 13, 13
+		cl.Curves, sv.Curves = []uint16{0x1d}, []uint16{0x1d}
+		sv.SkipHelloVfy = true
+		cl.MTU, sv.MTU = 300, 300
+	case "v12-mtu300":
+		cl.MTU, sv.MTU = 300, 300
 	}
 	cl.IntervalMs, sv.IntervalMs = c.IvlMs, c.IvlMs
 	cl.NoBackoff, sv.NoBackoff = c.NoBackoff, c.NoBackoff
@@ -290,10 +300,14 @@ func run(c Case, r *pbt.R) {
 			now := p.Net.Now() - start
 			switch s.kind {
 			case "release":
-				for _, d := range held {
+				rel := held
+				if c.ReleasePart > 0 && c.ReleasePart < len(held) {
+					rel = held[:c.ReleasePart]
+				}
+				for _, d := range rel {
 					p.Net.Inject(peer, x, d)
 				}
-				receipts = append(receipts, rcv{now, "new", len(held)})
+				receipts = append(receipts, rcv{now, "new", len(rel)})
 			case "stale":
 				for _, d := range lastDelivered {
 					p.Net.Inject(peer, x, d)
@@ -385,6 +399,49 @@ func run(c Case, r *pbt.R) {
 			}
 
 			return s
+		}
+		// ---- new data that does not complete the peer's flight: the interval is restored
+		if c.ReleasePart > 0 && !(c.ReleasePart < len(held) && len(receipts) > 0) {
+			r.Class("partial-release-not-applicable") // the withheld flight has too few datagrams
+
+			return
+		}
+		if c.ReleasePart > 0 {
+			a := receipts[0].at
+			var before, after []time.Duration
+			for _, g := range groups {
+				if g.class != "flight" {
+					continue
+				}
+				if g.at < a {
+					before = append(before, g.at)
+				} else if g.at > a {
+					after = append(after, g.at)
+				}
+			}
+			backedOff := len(before) >= 3 && !c.NoBackoff // the interval had grown to >= 4I when the data came
+			for i := 0; i+1 < len(after); i++ {
+				gap := after[i+1] - after[i]
+				limit := ivl << (i + 1) //nolint:gosec
+				if c.NoBackoff {
+					limit = ivl
+				}
+				if limit > 60*time.Second {
+					limit = 60 * time.Second
+				}
+				if gap > limit {
+					r.Failf(sigBase+"|interval-not-restored-by-new-data", "new data (%d of %d datagrams of the peer's flight) arrived at %v after %d timeouts; retransmission gap %d afterwards is %v, a ladder restarted at the initial interval %v allows at most %v\n%s", c.ReleasePart, len(held), a, len(before)-1, i+1, gap, ivl, limit, describe())
+
+					return
+				}
+			}
+			if len(after) >= 2 && backedOff {
+				r.Class("partial-new-data-after-backoff")
+				r.NonTrivial()
+			}
+			r.Class(c.Variant + "/" + x)
+
+			return
 		}
 		if len(tail) == 0 {
 			r.Class("silent-endpoint")
@@ -548,6 +605,29 @@ func gen(t *rapid.T) Case {
 	return c
 }
 
+// partial-release grid: multi-datagram flights (MTU 300), the first 1..2 datagrams of the withheld
+// flight arrive after the endpoint has backed off b times
+func enumPartial(_ string, yield func(Case) bool) {
+	// Only withheld flights whose first datagrams are certainly NEW to the endpoint: the server's very
+	// first flight in DTLS 1.3 (cut 0) and its post-cookie flight in DTLS 1.2 (cut 1). Later "flights"
+	// of a DTLS 1.3 run with a small MTU are ACK-driven retransmissions, i.e. stale data.
+	for _, vc := range []struct {
+		v   string
+		cut int
+	}{{"v13-mtu300", 0}, {"v12-mtu300", 1}} {
+		for _, part := range []int{1, 2, 3} {
+			for _, b := range []int{2, 3, 4, 5} {
+				for _, ivl := range []int{200, 1000} {
+					rel := ivl*((1<<b)-1) + ivl/4 // just after the b-th timeout
+					if !yield(Case{Role: "C", Variant: vc.v, IvlMs: ivl, Cut: vc.cut, ReleaseMs: rel, ReleasePart: part, HorizonMs: rel + ivl*40}) {
+						return
+					}
+				}
+			}
+		}
+	}
+}
+
 // grid: role x variant x every cut point, total silence, default and small interval, backoff on/off
 func enumGrid(_ string, yield func(Case) bool) {
 	for _, v := range variants {
@@ -582,6 +662,9 @@ func init() {
 		"and there are none after a cookie request or after completion; emissions overall bounded by schedule + constant per received datagram. " +
 		"non-trivial = >=3 timer rungs verified, or reset stimulus, or cookie-request silence, or >=10 stale/junk datagrams; distinct = whole case"
 	pbt.Register(pbt.Prop[Case]{Name: "timer-law", Quick: 3000, Thorough: 80000, Gen: gen, Run: run, Crashy: true, Rule: "SAMPLED: " + rule})
+	pbt.Register(pbt.Prop[Case]{Name: "partial-new-data-grid", Enum: enumPartial, Exhaustive: true, Run: run, Crashy: true,
+		Rule: "GRID: multi-datagram flights (MTU 300, both versions) x role x cut x the first 1..2 datagrams of the withheld flight delivered just after the 2nd..4th timeout; " +
+			"oracle: the retransmission gaps afterwards are those of a ladder restarted at the initial interval (gap k <= I*2^k). non-trivial = the endpoint had backed off >= 3 times and retransmitted >= 2 times afterwards"})
 	pbt.Register(pbt.Prop[Case]{Name: "silence-grid", Enum: enumGrid, Exhaustive: true, Run: run, Crashy: true,
 		Rule: "GRID (7 variants x both roles x cut 0..4 x I in {1s,50ms} x backoff on/off, total silence): " + rule})
 }
